@@ -388,7 +388,7 @@ class Check:
             cov["notes"] = self.notes
         ev = {"property_id": self.prop, "tier": self.tier, "seed": self.seed, "level": self.level, "coverage": cov,
               "assumptions": self.assumptions, "wall_s": round(time.time() - self.t0, 1), "violations": len(self.violations)}
-        with open(os.path.join(EVID, self.prop + ".json"), "w") as f:
+        with open(os.path.join(EVID, self.prop + os.environ.get("VERIF_EVIDENCE_SUFFIX", "") + ".json"), "w") as f:
             json.dump(ev, f, indent=1)
         shutil.rmtree(self.workdir(), ignore_errors=True)
         log("[%s] tier=%s seed=%d evaluations=%d distinct=%d states=%s violations=%d wall=%.0fs" %
